@@ -33,3 +33,11 @@ def _mux(prop, tier, seed, replay):
 
 
 CHECKS["C18"] = _mux
+
+
+def _hs(prop, tier, seed, replay):
+    import fam_hs
+    return seqfamily.check(prop, fam_hs.family_for(prop), tier, seed, replay)
+
+
+CHECKS.update({p: _hs for p in ("C02", "C14", "C16")})
